@@ -12,6 +12,7 @@
 import PsutilModel.Proofs.C16Seq
 import PsutilModel.Proofs.C16Conc
 import PsutilModel.Proofs.C16Lock
+import PsutilModel.Proofs.C16Conc2
 import PsutilModel.Model.C16Gen
 namespace Psutil.C16
 open Spec
@@ -310,3 +311,129 @@ theorem C16_value_valid_literal_for_misses (c : CCfg) {s : St} (h : Reach c s) (
   exact ⟨t, h3 rfl, h1, h2⟩
 
 end Psutil.C16.Conc
+
+/- =========================================================================================
+   Part 3 — threads, TWO cache levels: a front-end memoised method (cpu_times, ppid, uids) whose
+   platform helper is itself memoised; front-end `_cache` and `_proc._cache` activated and
+   deactivated in the order oneshot() does it (translator facts actOrder / deactOrder)
+   ========================================================================================= -/
+namespace Psutil.C16.Conc2
+open Psutil.C16
+
+/-- what the two-level theorems need of the extracted facts: both levels are deactivated on exit,
+    cache_deactivate swallows AttributeError, the wrapper stores into the dict it looked up (the
+    shape the model transcribes), every front-end memoised method's source was resolved, and no
+    order token was dropped -/
+def Good2 : Prop :=
+  ccfg2.Covers ∧ ccfg2.delGuard = true ∧ Gen.C16.storeReloads = false ∧
+  (List.range ffunNames.length).all (fun f => (fsrcOpt f).isSome) = true ∧
+  Gen.C16.memoFront = ffunNames ∧
+  ccfg2.actSeq.length = Gen.C16.frontActivate.length + Gen.C16.procActivate.length ∧
+  ccfg2.deactSeq.length = Gen.C16.frontDeactivate.length + Gen.C16.procDeactivate.length
+
+instance : Decidable Good2 := by unfold Good2 CCfg2.Covers; infer_instance
+
+theorem ccfg2_good : Good2 := by decide
+
+/-- **no spurious error, two levels.** Under ANY interleaving of any number of threads calling
+    methods that go through the front-end cache, the platform cache, both or none, and threads
+    entering/leaving oneshot(), no AttributeError escapes `oneshot().__exit__` (and the wrappers
+    have no other way to fail: they store into the dict they looked up). -/
+theorem C16_no_spurious_error_two_level (c : CCfg2) (hc : c.Covers) (hd : c.delGuard = true) {s : St}
+    (h : Reach c s) (tid : Nat) : (s.thr tid).ph ≠ .oerr := by
+  intro he
+  have hI := (reach_inv hc h).l
+  have hl := hI.own tid (by rw [he]; simp)
+  have := hI.owner tid hl
+  rw [he, hd] at this
+  cases this
+
+theorem C16_no_spurious_error_two_level_current {s : St} (h : Reach ccfg2 s) (tid : Nat) :
+    (s.thr tid).ph ≠ .oerr :=
+  C16_no_spurious_error_two_level _ ccfg2_good.1 ccfg2_good.2.1 h tid
+
+/-- **valid at some moment, two levels (interval form).** When a call returns, its value is what
+    its source held at an instant `t ≤ now` with either `t` inside the call, or the value came out of
+    a dict — the front-end `_cache` or the platform `_cache` — that existed at an instant `t0` of
+    the call, and `t` is not older than the instant at which the block that created that dict took
+    the lock. In particular a value that travelled platform dict → front-end dict (stored by
+    another thread) is never older than the block whose front-end cache served it. -/
+theorem C16_value_valid_at_some_moment_two_level (c : CCfg2) (hc : c.Covers) {s : St} (h : Reach c s)
+    (tid g cs : Nat) (e : Entry) (how : How) (hpc : (s.thr tid).pc = .ret g cs e how) :
+    IntervalForm s g cs e how := by
+  have hD := (reach_inv hc h).d
+  have hT := hD.thr tid
+  rw [hpc] at hT
+  obtain ⟨⟨h1, h2⟩, h3⟩ := hT
+  refine ⟨e.tr, h1, h2, ?_⟩
+  cases how with
+  | computed => exact Or.inl h3
+  | hitP d t0 =>
+    obtain ⟨⟨a, b, c', d'⟩, e'⟩ := h3
+    exact Or.inr ⟨d, t0, Or.inl rfl, a, b, d', (hD.dicts d c').2.1, e'⟩
+  | hitF d t0 =>
+    obtain ⟨⟨a, b, c', d'⟩, e'⟩ := h3
+    exact Or.inr ⟨d, t0, Or.inr rfl, a, b, d', (hD.dicts d c').2.1, e'⟩
+
+theorem C16_value_valid_two_level_current {s : St} (h : Reach ccfg2 s) (tid g cs : Nat) (e : Entry) (how : How)
+    (hpc : (s.thr tid).pc = .ret g cs e how) : IntervalForm s g cs e how :=
+  C16_value_valid_at_some_moment_two_level _ ccfg2_good.1 h tid g cs e how hpc
+
+/-- a call that computes (misses or finds no cache at both levels) satisfies the literal clause -/
+theorem C16_value_valid_literal_for_misses_two_level (c : CCfg2) (hc : c.Covers) {s : St} (h : Reach c s)
+    (tid g cs : Nat) (e : Entry) (hpc : (s.thr tid).pc = .ret g cs e .computed) : LiteralForm s g cs e := by
+  have hT := (reach_inv hc h).d.thr tid
+  rw [hpc] at hT
+  obtain ⟨⟨h1, h2⟩, h3⟩ := hT
+  exact ⟨e.tr, h3, h1, h2⟩
+
+/-- **lock protocol, two levels.** While the lock is free BOTH `_cache` attributes are absent; at
+    most one thread is inside (or entering/leaving) a block; the nested-block branch is never taken
+    because of another thread's cache; and whenever an attribute is present its dict was created by
+    the block that currently holds the lock. -/
+theorem C16_lock_protocol_two_level (c : CCfg2) (hc : c.Covers) {s : St} (h : Reach c s) :
+    (s.lock = none → s.attrF = none ∧ s.attrP = none) ∧
+    (∀ i j, (s.thr i).ph ≠ .out → (s.thr j).ph ≠ .out → i = j) ∧
+    (∀ i, (s.thr i).ph ≠ .inNoop) ∧
+    (∀ d, (s.attrF = some d ∨ s.attrP = some d) → s.ep d = s.bstart) := by
+  have hI := reach_inv hc h
+  refine ⟨hI.l.free, fun i j hi hj => ?_, fun i hi => ?_, fun d hd => ?_⟩
+  · have h1 := hI.l.own i hi
+    have h2 := hI.l.own j hj
+    rw [h1] at h2
+    exact Option.some.inj h2
+  · have hl := hI.l.own i (by rw [hi]; simp)
+    have := hI.l.owner i hl
+    rw [hi] at this
+    exact this
+  · cases hd with
+    | inl hd => exact (hI.d.attrF d hd).2
+    | inr hd => exact (hI.d.attrP d hd).2
+
+def stp (t : Nat) : Action := .thr t .step
+def steps (t n : Nat) : List Action := List.replicate n (stp t)
+/-- enter: acquire, test, 4 + 3 activations, `act []` -/
+def blockIn (t : Nat) : List Action := .thr t .acquire :: steps t 9
+/-- thread 1's cpu_times() misses the front-end dict, HITS the platform dict filled by thread 0's
+    name(), stores the value into the front-end dict; thread 0's cpu_times() then hits it there -/
+def crossActs : List Action :=
+  blockIn 0 ++ [.setVer 0 5, .thr 0 (.call none 0)] ++ steps 0 5 ++ [.setVer 0 6, .thr 1 (.call (some 0) 0)] ++
+  steps 1 5 ++ [.thr 0 (.call (some 0) 0)] ++ steps 0 2
+
+/-- the hypotheses are satisfiable and both hit kinds occur: thread 1 returns a platform-level hit
+    (literal form false: read before its call began — finding C16-xthread-hit-predates-call), thread 0 a
+    front-end hit of the value thread 1 carried over from the platform dict -/
+example : ((runD ccfg2 St.init crossActs).thr 0).pc = .ret 0 24 ⟨5, 14⟩ (.hitF 3 25) ∧
+    ((runD ccfg2 St.init crossActs).thr 1).pc = .ret 0 18 ⟨5, 14⟩ (.hitP 6 21) ∧
+    intervalOK (runD ccfg2 St.init crossActs) 0 18 ⟨5, 14⟩ (.hitP 6 21) = true ∧
+    literalOK (runD ccfg2 St.init crossActs) 0 18 ⟨5, 14⟩ = false := by decide
+
+/-- were `_proc.oneshot_exit()` missing from the deactivations, the lock protocol would fail: after
+    the block the platform cache is still there (and the next block would serve stale stat) -/
+def cfgNoProcExit : CCfg2 := { ccfg2 with deactSeq := [.front, .front, .front, .front] }
+
+theorem C16_two_level_needs_both_deactivations :
+    ∃ s, Reach cfgNoProcExit s ∧ s.lock = none ∧ s.attrP ≠ none :=
+  ⟨runD cfgNoProcExit St.init (blockIn 0 ++ .thr 0 .beginExit :: steps 0 6), reach_runD _ Reach.init, by decide⟩
+
+end Psutil.C16.Conc2
